@@ -119,6 +119,21 @@ def entry_points(inst):
     both("Mask2D.resized_from", "coord", lambda mk_, s: aa.Grid2D.from_mask(mask=mk_.resized_from(new_shape=(h + 2, w + 4), pad_value=0)), _origin)
     both("Mask2D.derive_mask.blurring_from", "coord", lambda mk_, s: aa.Grid2D.from_mask(mask=mk_.derive_mask.blurring_from(kernel_shape_native=(3, 3))), _origin)
     both("Mask2D.derive_mask.edge_buffed", "coord", lambda mk_, s: aa.Grid2D.from_mask(mask=mk_.derive_mask.edge_buffed), _origin)
+    # a mask re-built from a Mask2D OBJECT that lives at another origin (the library does this itself in Grid2D.subtracted_from):
+    # the new mask is at the origin asked for, whatever that is - in particular exactly (0, 0)
+    src_o = (o0[0] + 1.0, o0[1] - 2.0)
+
+    def rebuilt(mk_):
+        return aa.Mask2D(mask=aa.Mask2D(mask=m.copy(), pixel_scales=(sy, sx), origin=src_o), pixel_scales=(sy, sx), origin=tuple(mk_.origin))
+
+    both("Mask2D(mask=Mask2D at another origin)", "coord", lambda mk_, s: aa.Grid2D.from_mask(mask=rebuilt(mk_)), _origin)
+    both("Mask2D(mask=Mask2D at another origin).mask_centre", "coord", lambda mk_, s: np.array([rebuilt(mk_).mask_centre]))
+    both("Grid2D.subtracted_from(offset=own origin)", "invariant",
+         lambda mk_, s: np.array(aa.Grid2D.from_mask(mask=mk_).subtracted_from(offset=tuple(mk_.origin))))
+    both("Grid2D.subtracted_from(offset=own origin).mask", "invariant",
+         lambda mk_, s: np.array(aa.Grid2D.from_mask(mask=aa.Grid2D.from_mask(mask=mk_).subtracted_from(offset=tuple(mk_.origin)).mask)))
+    both("Grid2D.subtracted_from(fixed offset)", "coord",
+         lambda mk_, s: aa.Grid2D.from_mask(mask=aa.Grid2D.from_mask(mask=mk_).subtracted_from(offset=(0.5, -0.25)).mask), _origin)
     both("Mask2D.rescaled_from?skip", "invariant", lambda mk_, s: np.zeros(1))
     recs.pop()
     both("image_mesh.Overlay.image_plane_mesh_grid_from", "coord", lambda mk_, s: aa.image_mesh.Overlay(shape=(4, 4)).image_plane_mesh_grid_from(mask=mk_, adapt_data=None))
@@ -296,6 +311,11 @@ def run(ctx):
         insts.append({"h": h, "w": w, "u": [int(x) for x in np.flatnonzero(m.ravel())], "sy": int(rng.choice([8, 16, 24])), "sx": int(rng.choice([8, 16, 24])),
                       "oy": int(rng.choice([-6, 0, 2, 10, 32])), "ox": int(rng.choice([-10, 0, 4, 6, -48])),
                       "dy": int(rng.choice([-14, -2, 6, 40])), "dx": int(rng.choice([-8, 2, 10, -34])), "n": int(rng.choice([1, 2, 4]))})
+        if k % 4 == 1:  # the translated origin is EXACTLY (0, 0) (d = -origin), or only one of its components is
+            insts[-1]["dy"] = -insts[-1]["oy"] if insts[-1]["oy"] else insts[-1]["dy"]
+            insts[-1]["dx"] = -insts[-1]["ox"] if insts[-1]["ox"] else insts[-1]["dx"]
+        if k % 4 == 3 and insts[-1]["oy"] == 0 and insts[-1]["ox"] == 0:  # ... or the first origin is, and the second is not
+            insts[-1]["oy"] = 0
     ctx.bounds = {"tlc_shapes": shapes, "tlc_scales": [4, 8, 12], "tlc_origins": [-6, 0, 2, 10], "tlc_shifts": [-6, -2, 0, 4],
                   "replayed_instances": n_inst, "mask_shapes": "7..10 x 7..10 random interiors", "tick": TAU}
     recs = []
